@@ -676,7 +676,28 @@ def lint_state(violations, eff, directives):
     return "suppressed-only(%s)" % "+".join(sorted(kinds))
 
 
+CONFIG_FILENAMES = (".sqlfluff", "setup.cfg", "tox.ini", "pep8.ini", "pyproject.toml", ".sqlfluffignore")
+
+
+def assert_clean_ancestors():
+    """In-process runs (cwd = harness directory) make sqlfluff look for config files in every directory between the
+    filesystem root and the project; CLI runs (cwd = project) do not.  A stray config file above the scratch root
+    would make the two disagree for reasons that are not sqlfluff's: refuse to run (harness error) instead."""
+    d = os.path.abspath(scratch_root())
+    seen = []
+    while True:
+        for f in CONFIG_FILENAMES:
+            if os.path.isfile(os.path.join(d, f)) and d != os.path.abspath(os.getcwd()):
+                seen.append(os.path.join(d, f))
+        parent = os.path.dirname(d)
+        if parent == d:
+            break
+        d = parent
+    assert not seen, "config files above the scratch directory would leak into in-process runs: %s" % seen
+
+
 def selftest_models():
+    assert_clean_ancestors()
     d = parse_noqa("a -- noqa\nb  -- noqa: PRS,TMP\n-- noqa: disable=all\nc\n-- noqa: enable=all\nd --noqa:LT01\n"
                    "e -- noqa: disable=LT01\nf")
     assert d == [(1, "plain", None), (2, "plain", ("PRS", "TMP")), (3, "disable", None), (5, "enable", None),
